@@ -18,8 +18,8 @@ larger and meet the smaller; join and meet are idempotent and commutative.
 """
 import itertools
 from fractions import Fraction
-from . import mir
-from .base import inst, OK, VIOLATION, UNDECIDED, strip, bool_arms
+from . import mir, canon
+from .base import inst, OK, VIOLATION, UNDECIDED, strip, bool_arms, verdict_of, errtext
 from .facts import CheckerError
 from .mir import show
 
@@ -349,7 +349,7 @@ def polynomial_laws(prog):
     stores = [s for s in te.stores if s[1][0] == "index"]
     errs = []
     if len(stores) != 1:
-        errs.append("expected one coefficient write, found %d" % len(stores))
+        errs.append("%sexpected one coefficient write in the body of mul, found %d" % ("?" if not stores else "", len(stores)))
     else:
         bb, pt, val, line = stores[0]
         idx = strip(pt[2])
@@ -374,14 +374,14 @@ def polynomial_laws(prog):
         if not ok:
             errs.append("coefficient write at line %d is `%s := %s`: a product must *accumulate* new[i+j] + self[i]·rhs[j] "
                         "(several (i, j) hit one slot; overwriting loses cross terms)" % (line, show(pt)[:40], show(v)[:80]))
-    out.append(inst("LAW", "%s:mul-convolution" % PA, VIOLATION if errs else OK, mul, None,
-                    "; ".join(errs) if errs else "new[i+j] = new[i+j] + self[i]·rhs[j]"))
+    out.append(inst("LAW", "%s:mul-convolution" % PA, verdict_of(errs), mul, None,
+                    errtext(errs) if errs else "new[i+j] = new[i+j] + self[i]·rhs[j]"))
     add = prog.find1(name="add", self_adt=PA, impl_trait="std::ops::Add", unit="rsdd-lib")
     te = add.terms
     stores = [s for s in te.stores if s[1][0] == "index"]
     errs = []
     if len(stores) != 1:
-        errs.append("expected one coefficient write")
+        errs.append("%sexpected one coefficient write in the body of add, found %d" % ("?" if not stores else "", len(stores)))
     else:
         bb, pt, val, line = stores[0]
         idx = strip(pt[2])
@@ -391,8 +391,8 @@ def polynomial_laws(prog):
             sorted(show(strip(o[1]))[-18:] for o in ops) == ["arg1.coefficients", "arg2.coefficients"]
         if not ok:
             errs.append("sum is not pointwise: new[i] := %s" % show(v)[:80])
-    out.append(inst("LAW", "%s:add-pointwise" % PA, VIOLATION if errs else OK, add, None,
-                    "; ".join(errs) if errs else "new[i] = self[i] + rhs[i]"))
+    out.append(inst("LAW", "%s:add-pointwise" % PA, verdict_of(errs), add, None,
+                    errtext(errs) if errs else "new[i] = self[i] + rhs[i]"))
     # result lengths: deg(a·b) = deg a + deg b, deg(a+b) <= max; both truncated at MAX_COEFFS coefficients
     def is_max_coeffs(t):
         t = strip(t)
@@ -500,10 +500,9 @@ def lattice_laws(prog):
             key = "%s:%s" % (adt, nm)
             errs = []
             try:
-                t = fn.terms.ret
-                # choose for RealSemiring delegates to join
-                if mir.is_call(strip(t), "join") and "join" in ops:
-                    t = ops["join"].terms.ret
+                # the operation may delegate to another function of the same type (choose to join, both choose
+                # impls to one private helper): look through it
+                t = canon.inline_local(prog, fn.terms.ret, lambda h: h.impl_self == adt and "{closure" not in h.npath)
                 for signs in itertools.product([-1, 0, 1], repeat=len(fields)):
                     rel = dict(zip(fields, signs))
                     res = cmp_eval(t, rel, fields)
